@@ -102,19 +102,28 @@ Definition fmt_dec_n (m e : Z) : string :=
   let ex := (left - dot)%Z in
   (if (m <? 0)%Z then "-" else "") ++ ip ++ (if String.eqb fp "" then "" else "." ++ fp)
   ++ (if (ex =? 0)%Z then "" else "e" ++ (if (ex <? 0)%Z then "-" else "+") ++ show_pos (Z.abs ex)).
+(** * Defect switches (DESIGN §2.6).  [as_found] is the unchanged tree; the harness selects the
+    values that reproduce the implementation's behaviour on the witnesses. *)
+Record quirks := Quirks {
+  q_frac_n_rejected : bool;   (* F18: '{:n}'.format(Fraction) raises ValueError (Python 3.12) *)
+  q_si_strip_any : bool }.    (* F4: siunitx strips every prefix name a unit name starts with *)
+Definition as_found : quirks := Quirks true true.
+Definition repaired : quirks := Quirks false false.
+
+(** F18 repaired: a Fraction exponent is rendered as the integer it equals, else like the float *)
+Definition fmt_frac (q : Qc) : string :=
+  if is_int q then show_Z (Qnum (this q)) else fmt_float_n q.
 (** [None]: Python 3.12's [Fraction.__format__] rejects type 'n' (ValueError) — F18 *)
-Definition fmt_n (x : expo) : option string :=
+Definition fmt_n (qk : quirks) (x : expo) : option string :=
   match x with
   | XInt z => Some (show_Z z)
   | XFloat q => Some (fmt_float_n q)
   | XDec m e => Some (fmt_dec_n m e)
-  | XFrac _ => None
+  | XFrac q => if q_frac_n_rejected qk then None else Some (fmt_frac q)
   end.
-(** F18 repaired: a Fraction exponent is rendered as the integer it equals, else as n/d *)
-Definition fmt_frac (q : Qc) : string :=
-  if is_int q then show_Z (Qnum (this q)) else show_Z (Qnum (this q)) ++ "/" ++ show_pos (Zpos (Qden (this q))).
-Definition x_renderable (x : expo) : bool := match x with XFrac _ => false | _ => true end.
-Definition fmt_n_str (x : expo) : string := default "" (fmt_n x).
+Definition x_renderable (qk : quirks) (x : expo) : bool :=
+  match x with XFrac _ => negb (q_frac_n_rejected qk) | _ => true end.
+Definition fmt_n_str (qk : quirks) (x : expo) : string := default "" (fmt_n qk x).
 
 (** ['{:.3f}'.format(q)], [q ≥ 0] (float, Decimal and Fraction all round half-even on the exact value) *)
 Definition fmt_3f (q : Qc) : string :=
@@ -234,22 +243,22 @@ Fixpoint denoteL (den : string → uc) (l : L) : uc :=
 (** long names denote themselves; the placeholder of the empty unit denotes the empty container *)
 Definition den_name (s : string) : uc := if String.eqb s "dimensionless" then ∅ else {[ s := 1%Qc ]}.
 
-Definition exp_str (pp : pparams) (x : expo) : string :=
-  if pp_pretty pp then pretty_map (fmt_n_str x) else fmt_n_str x.
+Definition exp_str (qk : quirks) (pp : pparams) (x : expo) : string :=
+  if pp_pretty pp then pretty_map (fmt_n_str qk x) else fmt_n_str qk x.
 
-Fixpoint print_pp (pp : pparams) (wrap : string → string) (l : L) : string :=
+Fixpoint print_pp (qk : quirks) (pp : pparams) (wrap : string → string) (l : L) : string :=
   match l with
   | Sym s => wrap s
-  | Pow l x => fill (pp_power pp) [print_pp pp wrap l; exp_str pp x]
-  | Prod ls => join_p (pp_product pp) (map (print_pp pp wrap) ls)
+  | Pow l x => fill (pp_power pp) [print_pp qk pp wrap l; exp_str qk pp x]
+  | Prod ls => join_p (pp_product pp) (map (print_pp qk pp wrap) ls)
   | Ratio n ds =>
-      join_p (pp_division pp) [print_pp pp wrap n; join_p (pp_division pp) (map (print_pp pp wrap) ds)]
+      join_p (pp_division pp) [print_pp qk pp wrap n; join_p (pp_division pp) (map (print_pp qk pp wrap) ds)]
   | Frac n d =>
       let ds := match d with
-                | Prod ds => let s := join_p (pp_product pp) (map (print_pp pp wrap) ds) in
+                | Prod ds => let s := join_p (pp_product pp) (map (print_pp qk pp wrap) ds) in
                              if Nat.ltb 1 (length ds) then fill (pp_paren pp) [s] else s
-                | _ => print_pp pp wrap d end in
-      join_p (pp_division pp) [print_pp pp wrap n; ds]
+                | _ => print_pp qk pp wrap d end in
+      join_p (pp_division pp) [print_pp qk pp wrap n; ds]
   | One => "1"
   end.
 
@@ -356,10 +365,9 @@ Definition layout_terms (as_ratio single : bool) (pos neg : list (string * expo)
 Definition rendered (as_ratio : bool) (pos neg : list (string * expo)) : list expo :=
   (map snd (List.filter (λ t : string * expo, negb (bool_decide (xval t.2 = 1%Qc))) pos)
    ++ map snd (List.filter (λ t : string * expo, negb (bool_decide (xval t.2 = (-1)%Qc) && as_ratio)) neg))%list.
-(** [quirk_frac_n = true]: '{:n}' rejects Fraction (F18, the unchanged tree) *)
-Definition layout (r : reg) (as_ratio single short : bool) (sf : sortf) (its : items) : res L :=
+Definition layout (qk : quirks) (r : reg) (as_ratio single short : bool) (sf : sortf) (its : items) : res L :=
   ' (pos, neg) ←r prepare r short as_ratio sf its;
-  if forallb x_renderable (rendered as_ratio pos neg) then Ok (layout_terms as_ratio single pos neg)
+  if forallb (x_renderable qk) (rendered as_ratio pos neg) then Ok (layout_terms as_ratio single pos neg)
   else Err EValue.
 
 (** * siunitx, as coded: every prefix *name* that the (remaining) unit name starts with is
@@ -373,41 +381,15 @@ Definition si_strip (r : reg) (name : string) : option string * string :=
         then (Some p, str_drop (String.length p) st.2) else st
     | None => st
     end) (r_prefix_keys r) (None, name).
-Definition si_tothe (x : expo) : string :=
-  let q := xval x in
-  if is_int q then
-    let n := Qnum (this q) in
-    if (n =? 1)%Z then "" else if (n =? 2)%Z then "\squared" else if (n =? 3)%Z then "\cubed"
-    else "\tothe{" ++ show_Z n ++ "}"
-  else rstrip0 ("\tothe{" ++ fmt_3f q ++ "}").
-Definition si_one (r : reg) (nx : string * expo) : string :=
-  let '(p, u) := si_strip r nx.1 in
-  (if qneg (xval nx.2) then "\per" else "")
-  ++ (match p with Some p => "\" ++ p | None => "" end) ++ "\" ++ u ++ si_tothe (xabs nx.2).
-Definition leb_item (a b : string * expo) : bool :=
-  match String.compare a.1 b.1 with
-  | Lt => true | Gt => false
-  | Eq => bool_decide (xval a.2 <= xval b.2)%Qc end.
-Definition siunitx_format_unit (r : reg) (its : items) : string :=
-  let s := merge_sort (brel leb_item) its in
-  String.concat "" (map (si_one r) (List.filter (λ nx : string * expo, negb (qneg (xval nx.2))) s))
-  ++ String.concat "" (map (si_one r) (List.filter (λ nx : string * expo, qneg (xval nx.2)) s)).
-
 (** what an siunitx item denotes: [\prefix\unit] is the unit [prefix ++ unit] provided [\unit]
     is a unit of the registry (a macro siunitx knows), [prefix] a prefix name, and together they
     spell the original name *)
 Definition is_unit_name (r : reg) (s : string) : bool :=
   match r_units r !! s with Some d => String.eqb (u_name d) s | None => false end.
 Definition is_prefix_name (r : reg) (s : string) : bool :=
-  match r_prefixes r !! s with Some d => String.eqb (p_name d) s && negb (String.eqb s "") | None => false end.
-Definition si_ok (r : reg) (name : string) : bool :=
-  let '(p, u) := si_strip r name in
-  String.eqb (default "" p ++ u) name && is_unit_name r u
-  && match p with Some p => is_prefix_name r p | None => true end.
-Definition si_denote (r : reg) (its : items) : option uc :=
-  if forallb (λ nx : string * expo, si_ok r nx.1) its
-  then Some (list_to_map (map (λ nx : string * expo, let '(p, u) := si_strip r nx.1 in (default "" p ++ u, xval nx.2)) its))
-  else None.
+  negb (String.eqb s "") &&
+  existsb (λ key, match r_prefixes r !! key with Some d => String.eqb (p_name d) s | None => false end)
+          (r_prefix_keys r).
 (** F4 repaired: strip a prefix only when the remainder is a defined unit *)
 Definition si_strip_fixed (r : reg) (name : string) : option string * string :=
   match List.find (λ key, match r_prefixes r !! key with
@@ -421,6 +403,38 @@ Definition si_strip_fixed (r : reg) (name : string) : option string * string :=
   | None => (None, name)
   end.
 
+Definition si_split (qk : quirks) (r : reg) (name : string) : option string * string :=
+  if q_si_strip_any qk then si_strip r name else si_strip_fixed r name.
+Definition si_tothe (x : expo) : string :=
+  let q := xval x in
+  if is_int q then
+    let n := Qnum (this q) in
+    if (n =? 1)%Z then "" else if (n =? 2)%Z then "\squared" else if (n =? 3)%Z then "\cubed"
+    else "\tothe{" ++ show_Z n ++ "}"
+  else rstrip0 ("\tothe{" ++ fmt_3f q ++ "}").
+Definition si_one (qk : quirks) (r : reg) (nx : string * expo) : string :=
+  let '(p, u) := si_split qk r nx.1 in
+  (if qneg (xval nx.2) then "\per" else "")
+  ++ (match p with Some p => "\" ++ p | None => "" end) ++ "\" ++ u ++ si_tothe (xabs nx.2).
+Definition leb_item (a b : string * expo) : bool :=
+  match String.compare a.1 b.1 with
+  | Lt => true | Gt => false
+  | Eq => bool_decide (xval a.2 <= xval b.2)%Qc end.
+Definition siunitx_format_unit (qk : quirks) (r : reg) (its : items) : string :=
+  let s := merge_sort (brel leb_item) its in
+  String.concat "" (map (si_one qk r) (List.filter (λ nx : string * expo, negb (qneg (xval nx.2))) s))
+  ++ String.concat "" (map (si_one qk r) (List.filter (λ nx : string * expo, qneg (xval nx.2)) s)).
+
+(** [\prefix\unit] is the unit [prefix ++ unit] provided [\unit] is a unit of the registry (a macro
+    siunitx knows), [prefix] a prefix name, and together they spell the original name *)
+Definition si_ok (qk : quirks) (r : reg) (name : string) : bool :=
+  let '(p, u) := si_split qk r name in
+  String.eqb (default "" p ++ u) name && is_unit_name r u
+  && match p with Some p => is_prefix_name r p | None => true end.
+Definition si_denote (qk : quirks) (r : reg) (its : items) : option uc :=
+  if forallb (λ nx : string * expo, si_ok qk r nx.1) its
+  then Some (list_to_map (map (λ nx : string * expo, let '(p, u) := si_split qk r nx.1 in (default "" p ++ u, xval nx.2)) its))
+  else None.
 (** * Format specs: custom flags, [split_format], dispatch *)
 (** REGISTERED_FORMATTERS keys, longest first (stable), as [extract/remove_custom_flags] use them *)
 Fixpoint insert_by_len (k : string) (l : list string) : list string :=
@@ -479,29 +493,29 @@ Definition fp_of (f : fmtid) : fparams :=
   match f with FD => fp_D | FC => fp_C | FP => fp_P | FH => fp_H | FL => fp_L | _ => fp_default end.
 
 (** the per-class [format_unit] *)
-Definition format_unit_with (r : reg) (f : fmtid) (uspec : string) (sf : sortf) (its : items) : res string :=
+Definition format_unit_with (qk : quirks) (r : reg) (f : fmtid) (uspec : string) (sf : sortf) (its : items) : res string :=
   let short := str_contains "~" uspec in
   match f with
   | FLx =>
-      let s := siunitx_format_unit r its in
+      let s := siunitx_format_unit qk r its in
       Ok ("\si[]{" ++ (if short then str_replace "\percent" "\%" s else s) ++ "}")
   | FRaw => Err EOther
   | _ =>
       match parse_params (fp_of f) with
       | None => Err EOther
       | Some pp =>
-          l ←r layout r (pp_as_ratio pp) (pp_single pp) short sf its;
+          l ←r layout qk r (pp_as_ratio pp) (pp_single pp) short sf its;
           Ok (match f with
-              | FL => latex_brackets (print_pp pp latex_wrap l)
-              | _ => print_pp pp id l end)
+              | FL => latex_brackets (print_pp qk pp latex_wrap l)
+              | _ => print_pp qk pp id l end)
       end
   end.
 
 Record fcfg := FCfg { c_default : string; c_separate : option bool; c_sort : sortf }.
 (** [FullFormatter.format_unit] = [format(unit, spec)], [str(unit)] *)
-Definition full_format_unit (r : reg) (c : fcfg) (spec : string) (its : items) : res string :=
+Definition full_format_unit (qk : quirks) (r : reg) (c : fcfg) (spec : string) (its : items) : res string :=
   let uspec := if String.eqb spec "" then c_default c else spec in
-  format_unit_with r (get_formatter uspec) uspec (c_sort c) its.
+  format_unit_with qk r (get_formatter uspec) uspec (c_sort c) its.
 
 (** * Magnitudes: Python's own [format(m, mspec)] is taken as given; the model does the
     exponent-notation rewriting with [_EXP_PATTERN]: digit, optional point, digits, 'e', optional
@@ -573,7 +587,7 @@ Definition joint_of (f : fmtid) : list piece :=
 (** [FullFormatter.format_quantity] = [format(q, spec)], [str(q)].  [mstrs] maps a magnitude
     spec to what Python's [format(magnitude, mspec)] returns; [its] are the unit items of the
     quantity that is printed (after [to_compact] when the spec carries '#'). *)
-Definition full_format_quantity (r : reg) (c : fcfg) (spec : string) (mstrs : list (string * string))
+Definition full_format_quantity (qk : quirks) (r : reg) (c : fcfg) (spec : string) (mstrs : list (string * string))
     (its : items) : res string :=
   let spec := if String.eqb spec "" then c_default c else spec in
   let spec := str_replace "#" "" spec in
@@ -582,7 +596,7 @@ Definition full_format_quantity (r : reg) (c : fcfg) (spec : string) (mstrs : li
   match assoc mspec mstrs with
   | None => Err EOther
   | Some mstr =>
-      ustr ←r format_unit_with r f uspec (c_sort c) its;
+      ustr ←r format_unit_with qk r f uspec (c_sort c) its;
       let m := format_magnitude f mstr in
       Ok (match f with
           | FLx => "\SI[]" ++ join_mu (joint_of f) ("{" ++ m ++ "}") (str_drop 5 ustr)
@@ -592,26 +606,26 @@ Definition full_format_quantity (r : reg) (c : fcfg) (spec : string) (mstrs : li
 
 (** * The inverse direction at token level: what the tree builder and the ParserHelper algebra
     make of the tokens a plain format emits *)
-Definition term_tokens (l : L) : list tok :=
+Definition term_tokens (qk : quirks) (l : L) : list tok :=
   match l with
   | Sym s => [TName s]
-  | Pow (Sym s) x => [TName s; TOp "**"; TNum (fmt_n_str x)]
+  | Pow (Sym s) x => [TName s; TOp "**"; TNum (fmt_n_str qk x)]
   | One => [TNum "1"]
   | _ => [TOther]
   end.
-Fixpoint prod_tokens (ls : list L) : list tok :=
+Fixpoint prod_tokens (qk : quirks) (ls : list L) : list tok :=
   match ls with
   | [] => []
-  | [t] => term_tokens t
-  | t :: ls' => (term_tokens t ++ TOp "*" :: prod_tokens ls')%list
+  | [t] => term_tokens qk t
+  | t :: ls' => (term_tokens qk t ++ TOp "*" :: prod_tokens qk ls')%list
   end.
-Definition layout_tokens (l : L) : list tok :=
+Definition layout_tokens (qk : quirks) (l : L) : list tok :=
   match l with
-  | Prod ls => prod_tokens ls
+  | Prod ls => prod_tokens qk ls
   | Ratio n ds =>
-      ((match n with Prod ls => prod_tokens ls | _ => term_tokens n end)
-       ++ flat_map (λ d, TOp "/" :: term_tokens d) ds)%list
-  | _ => term_tokens l
+      ((match n with Prod ls => prod_tokens qk ls | _ => term_tokens qk n end)
+       ++ flat_map (λ d, TOp "/" :: term_tokens qk d) ds)%list
+  | _ => term_tokens qk l
   end.
 (** [_parse_units_as_container] after tokenising: names are resolved with [get_name];
     a non-multiplicative unit becomes its delta_ counterpart unless it stands alone with exponent 1 *)
@@ -628,9 +642,11 @@ Definition resolve_names (r : reg) (d : uc) : res uc :=
                        | None => cname end
                   else cname in
     Ok (uc_add acc cname' v)) l ∅.
+(** When a non-integer power was involved ([fl]) the scale is a float the Eval model does not
+    track; the token lists considered here contain no number but 1 and exponents, so it is 1.0. *)
 Definition parse_units_tokens (r : reg) (toks : list tok) : res uc :=
-  ' (p, _) ←r ph_from_tokens toks;
-  if negb (bool_decide (ph_scale p = 1%Qc)) then Err EValue else resolve_names r (ph_d p).
+  ' (p, fl) ←r ph_from_tokens toks;
+  if negb fl && negb (bool_decide (ph_scale p = 1%Qc)) then Err EValue else resolve_names r (ph_d p).
 
 (** the container a list of items stands for *)
 Definition uc_of (its : items) : uc := list_to_map (map (λ nx : string * expo, (nx.1, xval nx.2)) its).
